@@ -23,7 +23,7 @@ TRUSTED = ['tools/lib/qfun.py reading of jnp scalar code (+ - * /, comparisons, 
            'jax.Array.is_deleted / unsafe_buffer_pointer report deletion / aliasing']
 ASSUMPTIONS = ['input leaves and weights are finite; weights of the hull theorem are non-negative',
                'tree_l2_norm(x) is the non-negative square root of the sum of squares (the norm enters the clip model as a given number n with n*n == sumsq x)',
-               'clip bound > 0 (bound 0 on a zero tree is 0/0 = NaN in the code and None in the model)',
+               'clip bound >= 0',
                'ownership theorems are about the hand-written store script of Model/C07_Model.v, tied to the code by the '
                'translated donate_argnums tables and by the is_deleted / aliasing observations of this harness']
 PARTIAL = ['C07_inputs_not_donated / C07_result_fresh: real XLA donation is runtime behaviour; the script models it only at the donate_argnums call sites']
@@ -94,7 +94,7 @@ def gen_weights(rng, n, mode):
 
 
 def generate(tier, rng):
-  n_mean, n_sum, n_clip, n_small = {'quick': (260, 80, 110, 60), 'thorough': (1500, 400, 600, 200),
+  n_mean, n_sum, n_clip, n_small = {'quick': (260, 80, 110, 60), 'thorough': (4000, 1000, 1600, 500),
                                     'search': (3000, 800, 1200, 300)}.get(tier, (260, 80, 110, 60))
   structs = [gen_struct(rng, big=(i % 5 == 0)) for i in range(14 if tier == 'quick' else 60)]
   structs = [s for s in structs if size(s) <= 40] + [['a', []], ['a', [3]], ['d', {'w': ['a', [2, 2]], 'b': ['a', [2]]}]]
@@ -146,17 +146,17 @@ def generate(tier, rng):
     k = size(st)
     flat = vals + [0.0] * (k - len(vals))
     rng.shuffle(flat)
-    mode = rng.choice(['below', 'above', 'equal', 'above', 'pow2'])
+    mode = rng.choice(['below', 'above', 'equal', 'above', 'pow2', 'zero-bound'] if i % 8 else ['zero-bound'])
     if mode == 'below':
       c = norm * rng.choice([2, 1.5, 8]) + rng.choice([0, 0.5])
     elif mode == 'equal':
       c = norm
+    elif mode == 'zero-bound':
+      c = 0.0
     elif mode == 'pow2':   # c / norm exactly representable only when both are powers of two times the same odd part
       c = norm / rng.choice([2, 4, 8])
     else:
       c = rng.choice([0.5, 1.0, 0.25, 3.0, norm / 3 if norm else 1.0])
-    if c == 0 and i % 3:
-      c = 1.0
     c = float(np.float32(c))
     exact = (norm == 0) or (c >= norm) or (
         Fraction(c) / Fraction(norm) == Fraction(float(np.float32(c) / np.float32(norm))) and
@@ -397,9 +397,9 @@ def oracle(case, obs):
       out.append(('order', 'a different client order gives a different result'))
   if kind == 'clip':
     x, c, n = trees[0], case['c'], case['norm']
-    if c > 0:
+    if c >= 0:
       if any(v is None for v in res):
-        out.append(('clip-non-finite', 'clipped tree has a NaN / Inf coordinate for a positive bound'))
+        out.append(('clip-non-finite', 'clipped tree has a NaN / Inf coordinate for a non-negative bound'))
       else:
         rn = math.sqrt(sum(v * v for v in res))
         if rn > c * (1 + TOL):
@@ -460,7 +460,7 @@ def nontrivial(case, obs):
   if case['kind'] in ('mean', 'agg'):
     return len({w for w in case['weights'] if w > 0}) >= 2
   if case['kind'] == 'clip':
-    return case['norm'] > case['c'] > 0
+    return case['norm'] > case['c'] >= 0
   return len(case['trees']) >= 2
 
 
